@@ -9,13 +9,14 @@ open Spec
 
 theorem Meets.cases {r : M (ℝ × Slot)} {error : Slot} {x : Expect ℝ} (h : Meets r error x) :
     (∃ v, x = .value v ∧ r = Except.ok (v, error)) ∨
-    (x = .fails ∧ ∃ e : Err, e.msg ≠ "" ∧ e.code ≤ 5 ∧ r = Except.ok ((0 : ℝ), error.withErr e)) := by
+    (x = .fails ∧ ∃ e : Err, e.msg ≠ "" ∧ e.code ≤ 5 ∧ r = Except.ok ((0 : ℝ), error.withErr e)) ∨ x = .any := by
   cases x with
   | value v => exact Or.inl ⟨v, rfl, h⟩
   | fails =>
     obtain ⟨e, h1, h2, h3⟩ := h
-    refine Or.inr ⟨rfl, e, h1, h2, ?_⟩
+    refine Or.inr (Or.inl ⟨rfl, e, h1, h2, ?_⟩)
     rw [h3]; norm_num
+  | any => exact Or.inr (Or.inr rfl)
 
 theorem fails_of_eq {r : M (ℝ × Slot)} {error : Slot} {e : Err} (h1 : e.msg ≠ "") (h2 : e.code ≤ 5)
     (h : r = Except.ok ((0 : ℝ), error.withErr e)) : Fails r error := by
@@ -57,4 +58,24 @@ theorem add3_eq_value {a b c : Expect ℝ} {v : ℝ} (h : add3 a b c = .value v)
     ∃ p r s, a = .value p ∧ b = .value r ∧ c = .value s ∧ v = p + r + s := by
   cases a <;> cases b <;> cases c <;> simp [add3] at h
   exact ⟨_, _, _, rfl, rfl, rfl, h.symm⟩
+end Xrl
+
+namespace Xrl
+open Spec
+theorem interp_ne_any {g : Bool} {xa ya y2 : Vec ℝ} {n : Int} {tx : ℝ} {inv : ℝ → ℝ} :
+    interp g xa ya y2 n tx inv ≠ .any := by
+  unfold interp
+  split_ifs
+  · split <;> simp
+  · simp
+
+theorem lookup1_ne_any {cell : Nat → ℝ} {Z : Int} : lookup1 cell Z ≠ .any := by
+  unfold lookup1; split_ifs <;> simp
+
+theorem lookup2_ne_any {cell : Nat → Nat → ℝ} {lo hi : Int} {slot : Int → Int} {Z m : Int} :
+    lookup2 cell lo hi slot Z m ≠ .any := by
+  unfold lookup2; split_ifs <;> simp
+
+theorem add3_ne_any {a b c : Expect ℝ} : add3 a b c ≠ .any := by
+  cases a <;> cases b <;> cases c <;> simp [add3]
 end Xrl
